@@ -176,6 +176,16 @@ impl<'a> LspServer<'a> {
             }
             Err(req) => req,
         };
+
+        // Every request must be answered. This one is for a method that this
+        // server does not implement.
+        debug!("Request for method that is not implemented {}", _request.method);
+        let response = lsp_server::Response::new_err(
+            req_id,
+            lsp_server::ErrorCode::MethodNotFound as i32,
+            format!("Method not found: {}", _request.method),
+        );
+        self.sender.send(Message::Response(response)).unwrap();
         ""
     }
 
